@@ -44,6 +44,9 @@ type KdcScript struct {
 	// After: what the same proxy instance served right before the judged request: "" / "nothing", "other-realm" (a
 	// request naming OTHER.TEST, a second configured realm with a KDC of its own), "unknown-realm"
 	After string `json:"after,omitempty"`
+	// ReplyLen: length of every KDC's reply in bytes (0 = some length between 40 and 440): the wrapping of a reply has
+	// length fields whose encoding changes at 128, 256 and 65536
+	ReplyLen int `json:"replyLen,omitempty"`
 }
 
 type kdcProxyMsg struct {
@@ -70,7 +73,11 @@ func (r *Runner) RunKdc(s *KdcScript, tw *TraceWriter, rng *rand.Rand) error {
 			addrs = append(addrs, envx.RefusedAddr())
 			continue
 		}
-		reply := make([]byte, 40+rng.Intn(400))
+		rl := 40 + rng.Intn(400)
+		if s.ReplyLen > 0 {
+			rl = s.ReplyLen
+		}
+		reply := make([]byte, rl)
 		rng.Read(reply)
 		reply[0] = byte(i + 1)
 		k, err := envx.NewKDC(kd.TCP, kd.UDP, reply)
